@@ -572,3 +572,13 @@ Proof.
   intros lz d Hd H. unfold golden_ticket_solves in H.
   rewrite N.mod_small in H by exact Hd. apply N.leb_le. exact H.
 Qed.
+
+Theorem golden_ticket_section_sound : forall k u lz d,
+  d < 4294967296 -> golden_ticket_section_ok k u lz d = true -> u = 0 /\ k <> 0 /\ d <= lz.
+Proof.
+  intros k u lz d Hd H. unfold golden_ticket_section_ok in H.
+  apply Bool.andb_true_iff in H. destruct H as [H H3].
+  apply Bool.andb_true_iff in H. destruct H as [H1 H2].
+  apply N.eqb_eq in H1. apply Bool.negb_true_iff, N.eqb_neq in H2.
+  repeat split; try assumption. apply golden_ticket_solves_sound; assumption.
+Qed.
